@@ -82,7 +82,7 @@ def replay_one(ctx):
     rep = core.Report(ctx, "model_checking")
     try:
         tr, info = TR.run_trainer(sg, cfgd["E"], cfgd["NB"], cfgd["NV"], cfgd.get("NT", 1), cfgd.get("evaluator", False), cfgd.get("callbacks", False), cfgd.get("seed", 1),
-                                  do_fit=cfgd.get("do_fit", True), ambient=cfgd.get("ambient"))
+                                  do_fit=cfgd.get("do_fit", True), ambient=cfgd.get("ambient"), loader_kind=cfgd.get("loader_kind", "list"))
     except Exception as e:  # noqa: BLE001
         print("DIVERGENCE fit raised", type(e).__name__, e)
         print("VIOLATION property=%s replay=%s" % (ctx.pid, ctx.replay))
@@ -157,6 +157,18 @@ def run(ctx):
             rep.case("run:%s" % ((amb, E, NB, NV, do_fit),))
             rep.violation("fit-raised:%s:ambient=%s" % (type(e).__name__, amb), "Trainer (E=%d, NB=%d, NV=%d, %s) raised %s: %s" % (E, NB, NV, amb, type(e).__name__, str(e)[:200]),
                           dict(E=E, NB=NB, NV=NV, NT=1 + (seed % 2), evaluator=False, callbacks=False, seed=seed, ambient=amb, do_fit=do_fit))
+            continue
+        traces.append(tr)
+        infos.append(info)
+    # the library's own DataLoader as the source of batches, fresh and after the caller has partially consumed it
+    for lk, E, NB, NV in (("dataloader", 2, 2, 1), ("dataloader_peeked", 2, 3, 1), ("dataloader_peeked", 3, 2, 0), ("dataloader_peeked", 1, 3, 2)):
+        seed += 1
+        try:
+            tr, info = TR.run_trainer(sg, E, NB, NV, 1 + (seed % 2), False, False, seed, loader_kind=lk)
+        except Exception as e:  # noqa: BLE001
+            rep.case("run:%s" % ((lk, E, NB, NV),))
+            rep.violation("fit-raised:%s:loader=%s" % (type(e).__name__, lk), "Trainer (E=%d, NB=%d, NV=%d, %s) raised %s: %s" % (E, NB, NV, lk, type(e).__name__, str(e)[:200]),
+                          dict(E=E, NB=NB, NV=NV, NT=1 + (seed % 2), evaluator=False, callbacks=False, seed=seed, loader_kind=lk))
             continue
         traces.append(tr)
         infos.append(info)
